@@ -125,7 +125,7 @@ SvDefines(x, name) ==
     /\ name \in DOMAIN Case.svn
     /\ LET d == Case.svn[name] IN
          CASE d.f = "sv"    -> IF d.a = "key" THEN x.items[x.idx + 1].k = "pair" ELSE TRUE
-           [] d.f = "psv"   -> x.pre /\ (IF d.a = "key" THEN x.items[x.idx + 1].k = "pair" ELSE TRUE)
+           [] d.f = "psv"   -> x.pre /\ d.p = x.pn /\ (IF d.a = "key" THEN x.items[x.idx + 1].k = "pair" ELSE TRUE)
            [] d.f = "var"   -> HasAttr(x.items[x.idx + 1], d.a)
            [] d.f = "first" -> TRUE
            [] d.f = "last"  -> TRUE
@@ -560,9 +560,10 @@ RbWith ==
 ---------------------------------------------------------------------------
 (* in (renderwob) *)
 
+\* (pre: FALSE, or the prefix the tag was given -- a prefixed name is answered by the tag carrying that very prefix)
 SvFrame(items, idx, pre, first, last) ==
     [kind |-> "sv", b |-> EmptyFn, bar |-> FALSE,
-     x |-> [items |-> items, idx |-> idx, n |-> Len(items), pre |-> pre, first |-> first, last |-> last]]
+     x |-> [items |-> items, idx |-> idx, n |-> Len(items), pre |-> (pre # ""), pn |-> pre, first |-> first, last |-> last]]
 
 \* a batched tag (start=S size=Z as literals, no end, orphan and overlap 0) displays the window S .. min(S+Z-1, n), a start
 \* beyond the sequence is clamped to its last element (DT_InSV.opt; the full window arithmetic is DTBatch's)
@@ -610,7 +611,7 @@ RbIn ==
                          /\ UNCHANGED <<ns, evs>>
                     ELSE LET cache == IF Node.c.k = "name"
                                       THEN <<Frame("cache", (Node.c.n :> [q.out.v EXCEPT !.items = items0]))>> ELSE <<>>
-                             fs == cache \o <<SvFrame(items, WinFirst(Node, Len(items)), Node.pre, WinFirst(Node, Len(items)),
+                             fs == cache \o <<SvFrame(items, WinFirst(Node, Len(items)), Node.pn, WinFirst(Node, Len(items)),
                                                        WinLast(Node, Len(items)))>> IN
                          /\ ns' = ns \o fs
                          /\ evs' = evs \o PushEvs(fs, 1, Len(ns))
